@@ -570,6 +570,22 @@ func parentMain(argv []string) int {
 		}
 	} else {
 		inputs, dist = buildInputs(repo, tier, seed, bigMode)
+		// regression corpus (corpus/C02 witnesses of listed findings), run first on every run
+		if ws := a["--witnesses"]; ws != "" {
+			var pre []Input
+			for _, fn := range strings.Split(ws, ",") {
+				data, err := os.ReadFile(fn)
+				if err != nil {
+					fmt.Fprintln(os.Stderr, "c02x: witness:", err)
+					return 2
+				}
+				pre = append(pre, Input{Kind: "witness", Src: data, Note: filepath.Base(fn)})
+			}
+			inputs = append(pre, inputs...)
+			for i := range inputs {
+				inputs[i].ID = i
+			}
+		}
 	}
 	if only := a["--only"]; only != "" { // restrict to kinds with this prefix (triage aid)
 		var sel []Input
